@@ -251,6 +251,7 @@ class Observer:
             self.expected[(rec['daddr'], rec['proto'], rec['spi'])] = rec
         rekey = W.find(rq, 'NOTIFY', W.N['REKEY_SA'])
         self.children.append({'exchange': exch, 'pfs': pfs, 'rekey': bool(rekey), 'proto': proto, 'mode': mode,
+                              'rekey_spi': rekey[0].get('spi') if rekey else None,
                               'init': init_addr, 'fwd': fwd, 'rev': rev, 'session': (s.spi_i, s.spi_r),
                               'by_original_initiator': req['flags']['initiator'],
                               'tsi': tsi, 'tsr': tsr, 'req_tsi': W.find(rq, 'TSi')[0]['selectors'],
